@@ -118,6 +118,8 @@ def pairs(script):
 def run_impl(spec):
     """the real code. returns (per item observations, final card state)"""
     tag, clf, card, air = activate(spec)
+    if tag is None:
+        raise RuntimeError('activation of a well-formed Type 4 target was refused: %r' % {k: v for k, v in spec.items() if k != 'items'})
     obs = []
     for it in spec['items']:
         card.plan = [list(p) for p in it['plan']]
@@ -351,7 +353,9 @@ def main():
                       'as nfc.clf.TransmissionError (driver error mapping is C13)',
                       'theorems and the exactness demand are about an exchange that starts with reader and card block numbers in step '
                       '(after activation or after successful exchanges); see the known finding for exchanges after a failed one',
-                      'frame waiting times are not modelled (every clf.exchange returns or raises)']
+                      'frame waiting times are not modelled (every clf.exchange returns or raises)',
+                      'activation parameters are compared for well-formed RATS / SENSB_RES answers only (T0 announcing TA(1), TB(1)); '
+                      'malformed answers and an S(WTX) block without WTXM byte are C08 (Model/TagAct.v, Model/TagReadAnyB.v)']
     ck.coq(targets=['Proofs/IsoDep.vo', 'Proofs/IsoDepSync.vo', 'Proofs/IsoDepLegacy.vo', 'Proofs/IsoDepApdu.vo',
                     'Proofs/IsoDepStream.vo'], props='C12')
     mr = ck.model()
@@ -489,8 +493,9 @@ def main():
                         if quick and (fsci + fwi + ms) % 3 and (ms, mrv) != (256, 256):
                             continue
                         acts.append((typ, fsci, fwi, ms, mrv, None))
-        acts += [('A', 8, 4, 256, 256, '0578'), ('A', 8, 4, 256, 256, '02'), ('A', 8, 4, 256, 256, ''), ('A', 8, 4, 256, 256, '057877'),
-                 ('B', 8, 4, 256, 256, '5030702A1C0000001100'), ('B', 8, 4, 256, 256, '5030702A1C000000110081')]
+        # malformed / truncated ATS and SENSB_RES are C08's business (coq/Model/TagAct.v, fixes/c08-01, c08-02):
+        # the pinned code raises IndexError there, the repaired code returns None from activate; C12 compares
+        # only well-formed answers (T0 announcing TA(1) and TB(1)), on which both parsers and t4a_params agree
         for typ, fsci, fwi, ms, mrv, act in acts:
             spec = spec_of(typ=typ, fsci=fsci, fwi=fwi, max_send=ms, max_recv=mrv)
             if act is not None:
@@ -499,6 +504,10 @@ def main():
             clf = FakeClf(None, actrsp, ms, mrv)
             try:
                 tag = nfc.tag.activate(clf, t)
+                if tag is None:
+                    ck.count('activation-refused')
+                    ck.broken.append('activation of a well-formed Type 4%s target was refused (FSCI %d FWI %d)' % (typ, fsci, fwi))
+                    continue
                 d = tag._dep
                 got = 'ok tail=%d fsc=%d miu=%d retry=%d' % (clf.act_cmd[1] >> 4 if typ == 'A' else clf.act_cmd[6], d.miu + 3, d.miu, d.n_retry_nak)
                 if d.n_retry_ack != d.n_retry_nak:
